@@ -18,7 +18,7 @@
 (* LoadResult(s, doc, dv) = [ok, s, why, off]; dv = {} is the property.    *)
 (* Deviations reproduce how root.go behaves where it is known to differ.   *)
 (***************************************************************************)
-EXTENDS SchemaRules
+EXTENDS Introspect
 
 Fail(s, why, off) == [ok |-> FALSE, s |-> s, why |-> why, off |-> off, offs |-> {off}]
 
